@@ -385,8 +385,9 @@ pub fn run(e: &'static Engine) {
                     let n = size(v) as f64;
                     let s_total = n + 2.0 * margin.unwrap_or(4) as f64;
                     (
-                        if present[0] { real(1.0, 0.6 * n).prop_map(Some).boxed() } else { Just(None).boxed() },
-                        if present[1] { real(0.0, 6.0).prop_map(Some).boxed() } else { Just(None).boxed() },
+                        // sizes up to beyond the whole canvas (a frame larger than the symbol is a legitimate request)
+                        if present[0] { prop_oneof![5 => real(1.0, 0.6 * n), 1 => real(0.6 * n, 1.6 * s_total)].prop_map(Some).boxed() } else { Just(None).boxed() },
+                        if present[1] { prop_oneof![5 => real(0.0, 6.0), 1 => real(6.0, 0.8 * s_total)].prop_map(Some).boxed() } else { Just(None).boxed() },
                         if present[2] { (real(0.0, s_total), real(0.0, s_total)).prop_map(Some).boxed() } else { Just(None).boxed() },
                     )
                         .prop_map(move |(size_o, gap, pos)| Case {
